@@ -271,6 +271,8 @@ def field_decl(f, owner=""):
     else:
         lines += before
         lines.append("    %s" % attr_str(f))
+    for a in f.get("fattrs", []):
+        lines.insert(0, "    %s" % a)
     lines.append("    %s%s: %s," % (f.get("vis", ""), f["name"], t))
     return lines
 
@@ -1920,6 +1922,43 @@ def fam_misc(tier, seed):
         add_const_witnesses(s_, seed, maxn=2)
         out.append(s_)
     out.append(struct(cm, "CoreCtxDbg", 16, json.loads(json.dumps(fs[:4])), debug=True, default={"form": "=", "value": 7}, family="MISC"))
+    # a field next to another one whose name is its `with_` / `set_` form (the prefixed one has no getter, so no clash)
+    fs = [field("crc", [(0, 0)], T_bool()), field("with_crc", [(1, 1)], T_bool(), access="w"), field("point", [(2, 5)], T_uint(4)), field("set_point", [(6, 7)], T_uint(2), access="w"),
+          field("level", [(8, 11)], T_uint(4)), field("with_level", [(12, 15)], T_uint(4), access=""), field("len", [(16, 23)], T_uint(8)), field("set_len", [(24, 31)], T_int(8), access="w")]
+    for dflt in (None, {"form": "=", "value": 0x8000_0080}):
+        s_ = struct(mod, "PrefixNames%s" % ("d" if dflt else "n"), 32, json.loads(json.dumps(fs)), default=dflt, family="MISC")
+        add_const_witnesses(s_, seed, maxn=2)
+        out.append(s_)
+    out.append(struct(mod, "PrefixNamesFull", 8, [field("crc", [(0, 3)], T_uint(4)), field("with_crc", [(4, 7)], T_uint(4), access="w")], family="MISC"))
+    # field documentation that mentions `Self::…`, and `#[doc(hidden)]` / `#[doc(alias = ..)]` on fields (with and without debug)
+    fs = [field("enable", [(0, 0)], T_bool(), doc=["enable; only effective while [`Self::mode`] is not zero"]),
+          field("mode", [(1, 3)], T_uint(3), doc=["see `Self::enable` and Self::raw_value"]),
+          field("reserved", [(4, 7)], T_uint(4), doc=["kept out of the docs"]),
+          field("status", [(8, 15)], T_int(8), access="r", doc=["status"])]
+    fs[2]["fattrs"] = ["#[doc(hidden)]"]
+    fs[3]["fattrs"] = ["#[doc(alias = \"hidden\")]"]
+    for i, (dflt, dbg) in enumerate(((None, False), ({"form": "=", "value": 0x1234}, False), ({"form": "=", "value": 0x55AA}, True), (None, True))):
+        out.append(struct(mod, "DocSelf%d" % i, 16, json.loads(json.dumps(fs)), default=dflt, debug=dbg, family="MISC"))
+    # a repr narrower than the storage class of the enum's width (all discriminants fit it)
+    for bits, rp in ((12, "u8"), (16, "u8"), (9, "u8"), (24, "u16"), (33, "u32")):
+        e = mk_enum(mod, "ReprNarrow%d" % bits, bits, [0, 1, 200], family="MISC")
+        e["repr"] = rp
+        out.append(e)
+    out.append(struct(mod, "UsesReprNarrow", 32, [field("a", [(0, 11)], T_enum("ReprNarrow12", 12, False)), field("b", [(16, 24)], T_enum("ReprNarrow9", 9, False))], family="MISC"))
+    # user items called Ok / Err in scope (glob-imported variants shadow the prelude's)
+    om = "misc_okctx"
+    out.append({"kind": "raw", "mod": om, "name": "Health", "path": "%s::Health" % om, "defines": ["Health"],
+                "lines": ["/// a user enum whose variants are called Ok and Err", "#[derive(Clone, Copy, PartialEq, Eq, Debug)]", "pub enum Health {", "    /// fine", "    Ok,", "    /// not fine", "    Err,", "}",
+                          "#[allow(unused_imports)]", "pub use self::Health::*;"]})
+    on = struct(om, "OkInner", 4, [field("x", [(0, 3)], T_uint(4))], debug=True, family="MISC")
+    out.append(on)
+    fs = [field("run", [(0, 0)], T_bool()), field("inner", [(4, 7)], T_nested("OkInner", 4)), field("cnt", [(8, 13)], T_uint(6)), field("s", [(16, 23)], T_int(8)),
+          field("lanes", [(14, 14)], T_bool(), array={"k": 2, "stride": None})]
+    for i, (base, dflt) in enumerate(((24, {"form": "=", "value": 0x567}), (24, {"form": "const=", "value": 0xABCDE}), (32, {"form": ":", "value": 0x1234_5678}), (14 + 10, None))):
+        s_ = struct(om, "OkCtx%d" % i, base, json.loads(json.dumps(fs)), default=dflt, family="MISC")
+        add_const_witnesses(s_, seed, maxn=1)
+        out.append(s_)
+    out.append(struct(om, "OkCtxDbg", 14, json.loads(json.dumps(fs[:3])), debug=True, default={"form": "=", "value": 0x2AAA}, family="MISC"))
     # zero fields
     out.append(struct(mod, "Empty8n", 8, [], family="MISC"))
     out.append(struct(mod, "Empty8d", 8, [], default={"form": "=", "value": 7}, family="MISC"))
